@@ -122,8 +122,8 @@ def holds (E : Ext) (x : Input) (o : Response) : Bool :=
 
 /-! ### known-finding classes (decidable on the input, as narrow as the defect) -/
 
-/-- the gate of proxy.go:268 is open -/
-def gateOpen (x : Input) : Bool := x.flag && canTransform (x.originHeaders.get kCacheControl)
+/-- the gate of proxy.go:272 is open (the test runs over all Cache-Control lines, joined) -/
+def gateOpen (x : Input) : Bool := x.flag && canTransform (cacheControlOf x.originHeaders)
 
 /- (C06-a — client in the gzip class, origin `br`: Brotli on top of Brotli, labelled once — was
    repaired in util.GetRecompression; its class predicate is gone, the cell is covered by the
@@ -149,12 +149,13 @@ def inClass_C06_c (x : Input) : Bool :=
     ((contains x.ae b!"br" && !clientLists x.ae b!"br") ||
      (!contains x.ae b!"br" && contains x.ae b!"gzip" && !clientLists x.ae b!"gzip"))
 
-/-- C06-d: the origin says no-transform, but the gate's test — substring of the FIRST
-    Cache-Control line only — misses it -/
-def inClass_C06_d (x : Input) : Bool := gateOpen x && noTransform x.originHeaders
+/- (C06-d — a no-transform directive on a Cache-Control line other than the first was missed by
+   the gate's `Header.Get` — was repaired in proxy.go: the gate now tests all Cache-Control lines;
+   its class predicate is gone, the clause is covered by the full-strength theorem
+   `Props.C06.identity_when_off` and by the regression stream kf.C06-d.) -/
 
 def classes (x : Input) : List String :=
   (if inClass_C06_b x then ["C06-b"] else []) ++
-  (if inClass_C06_c x then ["C06-c"] else []) ++ (if inClass_C06_d x then ["C06-d"] else [])
+  (if inClass_C06_c x then ["C06-c"] else [])
 
 end Spec.C06
